@@ -35,6 +35,13 @@ Fixpoint consecutive {A} (f : Q -> Q -> A) (es : list Q) : list A :=
 Definition shells (pi : Q) (es : list Q) : list Q := consecutive (rdf_shell_volume pi) es.
 Definition centres (es : list Q) : list Q := consecutive rdf_bin_centre es.
 
+(* documented closed forms (the executable comparison uses these; Props/C16.v proves that the blocks
+   regenerated from rdf.py equal them) *)
+Definition spec_shell_volume (pi lo hi : Q) : Q := (4 # 3) * pi * (hi * hi * hi - lo * lo * lo).
+Definition spec_bin_centre (lo hi : Q) : Q := (lo + hi) / (2 # 1).
+Definition spec_norm (npairs siv v : Q) : Q := npairs * siv * v.
+Definition spec_nbins_quotient (r0 r1 bw : Q) : Q := (r1 - r0) / bw.
+
 (* IEEE-754 binary64 round-to-nearest-even of a rational (normal range; no overflow/underflow handling) *)
 Definition rn53 (q : Q) : Q :=
   if Qeq_bool q 0 then 0 else
@@ -57,7 +64,7 @@ Definition rn53 (q : Q) : Q :=
 (* n_bins = int((r_range[1] - r_range[0]) / bin_width), in double precision as the code computes it:
    both the subtraction and the division are rounded (the arguments are doubles already) *)
 Definition nbins_of_width (r0 r1 bw : Q) : Z :=
-  Qfloor (rn53 (rdf_nbins_quotient r0 (r0 + rn53 (r1 - r0)) bw)).
+  Qfloor (rn53 (spec_nbins_quotient r0 (r0 + rn53 (r1 - r0)) bw)).
 
 (* np.pi as the rational it is in double precision *)
 Definition pi_f64 : Q := 884279719003555 # 281474976710656.
@@ -70,13 +77,13 @@ Definition rdf (r0 r1 : Q) (n : nat) (npairs : nat) (vols : list Q) (d2s : list 
   let es := edges r0 r1 n in
   let cs := hist (map sqq es) d2s in
   let siv := fold_right Qplus 0 (map Qinv vols) in
-  (centres es,
-   map (fun cv => inject_Z (Z.of_nat (fst cv)) / rdf_norm (inject_Z (Z.of_nat npairs)) siv (snd cv))
-       (combine cs (shells pi_f64 es))).
+  (consecutive spec_bin_centre es,
+   map (fun cv => inject_Z (Z.of_nat (fst cv)) / spec_norm (inject_Z (Z.of_nat npairs)) siv (snd cv))
+       (combine cs (consecutive (spec_shell_volume pi_f64) es))).
 
 (* one correspondence case: tolerance, unit, r0, r1, bins (inl n | inr bin_width), atom pairs,
-   cell (per trajectory, orthorhombic, grid units), periodic, frames *)
-Definition rcase := (Q * Z * Q * Q * (nat + Q) * list (nat * nat) * vec * bool * list frame)%type.
+   periodic, frames with their cell (orthorhombic, grid units) *)
+Definition rcase := (Q * Z * Q * Q * (nat + Q) * list (nat * nat) * bool * list (vec * frame))%type.
 
 Definition rdf_nbins (r0 r1 : Q) (b : nat + Q) : nat :=
   match b with inl n => n | inr bw => Z.to_nat (nbins_of_width r0 r1 bw) end.
@@ -91,24 +98,22 @@ Fixpoint qlist_close_mixed (tol : Q) (a b : list Q) : bool :=
 Definition close_res_mixed (m : Q * list Q) (e : list Q) : bool := qlist_close_mixed (fst m) (snd m) e.
 
 Definition rdf_d2s (c : rcase) : list Q :=
-  let '(tol, unit, r0, r1, b, pairs, box, per, frames) := c in
+  let '(tol, unit, r0, r1, b, pairs, per, frames) := c in
   let u := inject_Z unit in
-  flat_map (fun f => map (fun p => inject_Z (dist2 (Some box) per f p) / (u * u)) pairs) frames.
+  flat_map (fun bf => map (fun p => inject_Z (dist2 (Some (fst bf)) per (snd bf) p) / (u * u)) pairs) frames.
 
 (* guard band: a squared distance closer than 1e-6 (relative) to a squared edge without being equal to it
    could be binned differently after float32 rounding of the distance; such cases are not compared *)
 Definition run_rdf_guard (c : rcase) : list Z :=
-  let '(tol, unit, r0, r1, b, pairs, box, per, frames) := c in
+  let '(tol, unit, r0, r1, b, pairs, per, frames) := c in
   let es := map sqq (edges r0 r1 (rdf_nbins r0 r1 b)) in
   let near (x e : Q) := negb (Qeq_bool x e) && Qle_bool (Qabs (x - e)) ((1 # 1000000) * e) in
   if existsb (fun x => existsb (near x) es) (rdf_d2s c) then [0%Z] else [1%Z].
 
 Definition run_rdf (c : rcase) : Q * list Q :=
-  let '(tol, unit, r0, r1, b, pairs, box, per, frames) := c in
+  let '(tol, unit, r0, r1, b, pairs, per, frames) := c in
   let n := rdf_nbins r0 r1 b in
   let u := inject_Z unit in
-  let '(bx, by_, bz) := box in
-  let vol := (inject_Z bx / u) * (inject_Z by_ / u) * (inject_Z bz / u) in
-  let d2s := flat_map (fun f => map (fun p => inject_Z (dist2 (Some box) per f p) / (u * u)) pairs) frames in
-  let '(r, g) := rdf r0 r1 n (length pairs) (map (fun _ => vol) frames) d2s in
+  let vol (bx : vec) := let '(x, y, z) := bx in (inject_Z x / u) * (inject_Z y / u) * (inject_Z z / u) in
+  let '(r, g) := rdf r0 r1 n (length pairs) (map (fun bf => vol (fst bf)) frames) (rdf_d2s c) in
   (tol, inject_Z (Z.of_nat n) :: r ++ g).
